@@ -4,6 +4,7 @@ From Coq Require Import Strings.Byte.
 From NfpmV Require Import Lib.Bytes Model.Meta Spec.C02.
 From NfpmV Require Import Proofs.C02Proofs.
 From NfpmV Require Import Model.Content Model.Deb822 Proofs.Deb822Proofs Proofs.ControlFields.
+From NfpmV Require Import Model.Mtree Model.Pkginfo Proofs.PkginfoProofs.
 Import ListNotations.
 
 (* deb / ipk: the Debian unfolding of what the "multiline" template function wrote gives back the synopsis
@@ -75,6 +76,30 @@ Theorem C02_ipk_control_reads_back : forall archtab i k, forallb wf_dfield (ipk_
   d_read (ipk_control archtab i k) = Some (map kv_of (ipk_fields_list archtab i k)).
 Proof. exact ipk_control_reads_back. Qed.
 Print Assumptions C02_ipk_control_reads_back.
+
+(* archlinux: the .PKGINFO text ("key = value" lines after a comment line) of the metadata model is the text of a
+   key/value list, and a reader recovers that list: architecture, build date, licence, packager, names, description,
+   version, size, url and one line per replaces / conflict / provides / depend / backup item, in that order *)
+Theorem C02_pkginfo_text_roundtrip : forall fs,
+  Forall (fun kv => wf_pfield kv = true) fs -> p_read (p_write fs) = Some fs.
+Proof. exact p_roundtrip. Qed.
+Print Assumptions C02_pkginfo_text_roundtrip.
+
+Theorem C02_arch_pkginfo_is_field_text : forall archtab i size bd backups,
+  arch_pkginfo archtab i size bd backups = arch_comment ++ Mtree.nl :: p_write (arch_info_fields archtab i size bd backups).
+Proof. exact arch_pkginfo_is_field_text. Qed.
+Print Assumptions C02_arch_pkginfo_is_field_text.
+
+Theorem C02_arch_pkginfo_reads_back : forall archtab i size bd backups,
+  forallb wf_pfield (arch_info_fields archtab i size bd backups) = true ->
+  p_read (arch_pkginfo archtab i size bd backups) = Some (arch_info_fields archtab i size bd backups).
+Proof. exact arch_pkginfo_reads_back. Qed.
+Print Assumptions C02_arch_pkginfo_reads_back.
+
+(* the description can never break the file: it is flattened to one line whatever it holds *)
+Theorem C02_arch_description_is_one_line : forall d, p_no_nl (replace_nl d (B " ")) = true.
+Proof. exact replace_nl_no_nl. Qed.
+Print Assumptions C02_arch_description_is_one_line.
 
 (* the premise is satisfiable, with relations, a multi-line description and a custom field *)
 Example C02_control_example :
